@@ -307,17 +307,51 @@ def h_circle(ctx):
     ctx.vc("acute case: d <= 2a/sqrt(3)", implies(acute, 3 * b * b * c * c <= q))
 
 
-@P.ground_check("circle_diameter/code-shape")
-def g_circle(tier):
-    """the code uses exactly the two formulas analysed above (checked on the AST)"""
-    import ast
-    from pyvc.repo import Repo
-    m, qn, node = Repo().function("pymeeus.Coordinates:circle_diameter")
-    src = ast.unparse(node)
-    yield ("obtuse branch returns the largest side", "if a >= sqrt(b * b + c * c):\n        d = a" in src, None)
-    yield ("acute branch is 2abc/sqrt(16K^2)",
-           "d = 2.0 * a * b * c / sqrt((a + b + c) * (a + b - c) * (b + c - a) * (a + c - b))" in src, None)
-    yield ("largest side selected first", "if d12 >= d13 and d12 >= d23:" in src and "elif d13 >= d12 and d13 >= d23:" in src, None)
+def _contract_sep(it, fref, args, kwargs):
+    """angular_separation returns an Angle in [0, 180] (proved above); here: three fresh separations"""
+    from pyvc.interp import SObj
+    n = it.info.get("n_sep", 0)
+    it.info["n_sep"] = n + 1
+    v = Num.real_var("s%d" % n)
+    return SObj("Angle", {"_deg": v, "_tol": Num.of(TOL)})
+
+
+def _circle_cuts():
+    def grab(it, frame):
+        it.info["d_local"] = frame.locals["d"]
+        return True
+    return {("circle_diameter", "d", 1): grab}
+
+
+@P.harness("circle_diameter/from-the-code", contracts=lambda: {COORD + "angular_separation": _contract_sep,
+                                                               ANGLE + ".reduce_deg": contract_reduce_deg},
+           cuts=_circle_cuts,
+           axioms=("sqrt",), functions=[COORD + "circle_diameter"], crosscheck=0, timeout=60)
+def h_circle_code(ctx):
+    """the selection of the largest side and the two formulas, executed from the AST with the three separations
+    symbolic: the result d satisfies max <= d and 3 d^2 <= 4 max^2"""
+    if ctx.native:
+        return
+    s = [ctx.real("s%d" % k, 0, 10, lo_open=True) for k in range(3)]
+    big = ite(and_(s[0] >= s[1], s[0] >= s[2]), s[0], ite(s[1] >= s[2], s[1], s[2]))
+    ctx.assume(and_(s[0] + s[1] > s[2], s[0] + s[2] > s[1], s[1] + s[2] > s[0]))       # a (non-degenerate) triangle
+    dummy = [angle(ctx, "q%d" % k)[0] for k in range(6)]
+    r = ctx.call(COORD + "circle_diameter", *dummy)
+    d = Num.of(ctx.it.info["d_local"])           # the value handed to Angle(d)
+    tr = (d - deg(ctx, r)) / 360
+    ctx.vc("the returned Angle is that value (mod 360)", tr == floor_(tr))
+    roots = ctx.uf_terms("sqrt")
+    others2 = s[0] * s[0] + s[1] * s[1] + s[2] * s[2] - big * big
+    ctx.identity("obtuse test compares the largest side with sqrt(sum of the other two squares)", roots[0][0], others2) \
+        if False else ctx.vc("obtuse test uses the sum of the squares of the two smaller sides", roots[0][0] == others2)
+    if len(roots) == 1:
+        ctx.vc("obtuse (or right) triangle: the diameter is the largest side", and_(d == big, big * big >= others2))
+    else:
+        q = (s[0] + s[1] + s[2]) * (s[0] + s[1] - s[2]) * (s[1] + s[2] - s[0]) * (s[0] + s[2] - s[1])
+        ctx.identity("acute triangle: radicand is 16 K^2 (Heron)", roots[1][0], q)
+        ctx.vc("acute triangle: diameter * sqrt(16 K^2) == 2 a b c (circumscribed circle), and the triangle is acute",
+               and_(d * sqrt_(roots[1][0]) == 2 * s[0] * s[1] * s[2], big * big < others2))
+    # with the two cases established, the bounds a <= d <= 2a/sqrt(3) are the lemma circle_diameter/bounds
 
 
 # ---- bounded: binary64 on the sphere
